@@ -192,6 +192,17 @@ Definition has_splitter (dc : N) : bool := match dc_row dc with Some (_, _, _, s
 Definition resolve (dc : N) : option coding :=
   match dc_row dc with Some (_, _, _, _, base) => coding_of_dc base | None => None end.
 
+(* dc_closure: per data_coding value the table constant whose encoder / decoder / splitter the running code's
+   behaves like (by behaviour; 255 = there is none, 254 = like none of the ten constants) *)
+Definition closure_row (dc : N) : option (N * N * N * N) := nth_error dc_closure (N.to_nat dc).
+Definition enc_class (dc : N) : N := match closure_row dc with Some (_, e, _, _) => e | None => 255 end.
+Definition dec_class (dc : N) : N := match closure_row dc with Some (_, _, d, _) => d | None => 255 end.
+Definition spl_class (dc : N) : N := match closure_row dc with Some (_, _, _, s) => s | None => 255 end.
+Definition table_constants : list N := [0; 1; 3; 5; 6; 7; 8; 10; 13; 14].
+(* the observation of one value, as the harness reports it *)
+Definition closure_row_eq (dc : N) (x : N * N * N) : bool :=
+  let '(e, d, s) := x in (enc_class dc =? e) && (dec_class dc =? d) && (spl_class dc =? s).
+
 Definition encode_dc (dc : N) (rs : list N) : outcome bytes :=
   match resolve dc with Some c => encode c rs | None => Err EOther end.
 Definition decode_dc (dc : N) (bs : bytes) : outcome (list N) :=
